@@ -44,6 +44,9 @@ pub struct RunResult {
 	pub rejected: Vec<usize>,
 	pub group_of: Vec<u32>,
 	pub final_table_free: bool,
+	/// raw operations counted while the fault plan was armed
+	pub fault_ops: u32,
+	pub step_ranges: Vec<StepRange>,
 }
 
 enum Cmd {
@@ -86,6 +89,7 @@ fn collect(env: &Arc<Env>, hung: bool) -> RunResult {
 		r.executed_steps = sh.executed_steps;
 		r.skipped_steps = sh.skipped_steps;
 		r.acq_orders = sh.acq_orders.clone();
+		r.step_ranges = sh.step_ranges.clone();
 	}
 	{
 		let g = env.exec.lock();
@@ -96,6 +100,7 @@ fn collect(env: &Arc<Env>, hung: bool) -> RunResult {
 		r.aborted = g.abort;
 		r.raw_ops = g.trace.len();
 		r.fault_fired = g.fault_fired.clone();
+		r.fault_ops = g.op_counter;
 		r.group_of = g.group_of.clone();
 		if let Some(s) = &g.sched {
 			r.sched_points = s.steps;
